@@ -81,8 +81,35 @@ def twins(ctx, rep, clause):
         # shape 1: one alias that is either self or a copy -> a single code path
         alias = _alias_shape(m)
         if alias is not None:
-            ob(rep, 'SIB-twin', m.fq, f'{name}: both modes run the same statements on `{alias}` (self or a copy)', True,
+            ob(rep, 'SIB-twin', m.fq, f'{name}: both modes run the same statements on one object (self or a copy)', True,
                'single code path', '', m.loc(), clause)
+            # when that object is self, a field of self read after it was written through the alias is the new value
+            written, bad = set(), []
+            started = False
+            for st in _linear(m.node.body):
+                if isinstance(st, ast.Assign) and any(isinstance(t, ast.Name) and t.id == alias for t in st.targets):
+                    started = True
+                    continue
+                if not started:
+                    continue
+                src = st.value if isinstance(st, ast.Assign) else (st.test if isinstance(st, ast.If) else st)
+                reads = _self_reads(src)
+                for x in ast.walk(src) if src is not None else []:
+                    if isinstance(x, ast.Attribute) and isinstance(x.value, ast.Name) and x.value.id == alias and \
+                            isinstance(x.ctx, ast.Load):
+                        reads.add(x.attr.lstrip('_'))
+                for r in sorted(reads):
+                    if r in written:
+                        bad.append((st, r))
+                if isinstance(st, ast.Assign) and isinstance(st.targets[0], ast.Attribute) and \
+                        isinstance(st.targets[0].value, ast.Name) and st.targets[0].value.id in (alias, 'self'):
+                    written.add(st.targets[0].attr.lstrip('_'))
+            ob(rep, 'SIB-twin', m.fq, f'{name}: no field is read after it was written through the shared object',
+               not bad, 'every read precedes the write of that field',
+               f'`{norm_stmt(bad[0][0])[:70]}` reads {bad[0][1]} after it was assigned through the object that is self in '
+               f'in-place mode: in that mode the value just written is read back (both termini end up with the same '
+               f'modifications), the copy mode still reads the old one' if bad else '', m.loc(bad[0][0]) if bad else
+               m.loc(), clause)
             continue
         blocks = []
         for node in walk_own(m.node):
@@ -166,6 +193,13 @@ def _diff(a, b):
 def _alias_shape(m: FuncInfo) -> Optional[str]:
     """`if inplace is False: x = deepcopy(self) else: x = self` (or the conditional expression form)"""
     for st in m.node.body:
+        if isinstance(st, ast.Assign) and len(st.targets) == 1 and isinstance(st.targets[0], ast.Name) and \
+                isinstance(st.value, ast.IfExp) and _inplace_test(st.value.test) is not None:
+            a, b = st.value.body, st.value.orelse
+            pol = _inplace_test(st.value.test)
+            self_arm, copy_arm = (a, b) if pol else (b, a)
+            if norm_stmt(self_arm) == 'self' and _strip_copy(copy_arm) == 'self' and norm_stmt(copy_arm) != 'self':
+                return st.targets[0].id
         if isinstance(st, ast.If) and _inplace_test(st.test) is not None and len(st.body) == 1 and len(st.orelse) == 1 \
                 and isinstance(st.body[0], ast.Assign) and isinstance(st.orelse[0], ast.Assign):
             a, b = st.body[0], st.orelse[0]
@@ -453,28 +487,37 @@ def rewritten_fields(ctx, rep, clause):
            'from the copy', f'rewrites {sorted(got)}: ' + (f'{sorted(fields - got)} would keep stale indices' if
                                                           fields - got else f'{sorted(got - fields)} is a whole-'
                                                           f'peptide field that must stay in place'), m.loc(), clause)
-    def _term_local(attr):
-        def find(c, fnode):
-            for node in ast.walk(fnode):
-                if isinstance(node, ast.Assign) and isinstance(node.targets[0], ast.Attribute) and \
-                        node.targets[0].attr == attr:
-                    for x in ast.walk(node.value):
-                        if isinstance(x, ast.Name) and c.is_local(x.id):
-                            return x.id
-            return None
-        return custom(find)
-    rev = localise(cls.methods['reverse'], {'nterm_mods': _term_local('_nterm_mods'),
-                                            'cterm_mods': _term_local('_cterm_mods')}, strict=False)
-    swap = None
-    for node in walk_own(rev.node):
-        if isinstance(node, ast.If) and norm_stmt(node.test) == 'swap_terms':
-            swap = node
-    ok = swap is not None and \
-        {norm_stmt(s) for s in swap.body} == {'nterm_mods = self.cterm_mods', 'cterm_mods = self.nterm_mods'} and \
-        {norm_stmt(s) for s in swap.orelse} == {'nterm_mods = self.nterm_mods', 'cterm_mods = self.cterm_mods'}
+    # terminal modifications: read off what each mode finally assigns, per value of swap_terms (branches pruned under
+    # that value, local aliases followed in statement order), so an if/else, an if without else, or a conditional
+    # expression are all read alike
+    from ..guards import specialise, resolve as gresolve
+    rev = cls.methods['reverse']
+    got = {}
+    for flag in (True, False):
+        ge = GuardEval({'swap_terms': flag})
+        env = {}
+        assigned = {}
+        for st in specialise(rev.node.body, ge):
+            if isinstance(st, ast.Assign) and len(st.targets) == 1:
+                val = gresolve(st.value, GuardEval({'swap_terms': flag}))
+                while isinstance(val, ast.Call) and norm_stmt(val.func) in ('copy.deepcopy', 'deepcopy', 'copy.copy') and val.args:
+                    val = val.args[0]
+                if isinstance(val, ast.Name) and val.id in env:
+                    val = env[val.id]
+                t = st.targets[0]
+                if isinstance(t, ast.Name):
+                    env[t.id] = val
+                elif isinstance(t, ast.Attribute) and t.attr.lstrip('_') in ('nterm_mods', 'cterm_mods'):
+                    src = val.attr.lstrip('_') if isinstance(val, ast.Attribute) and norm_stmt(val.value) == 'self' \
+                        else norm_stmt(val)
+                    assigned.setdefault(norm_stmt(t.value), {})[t.attr.lstrip('_')] = src
+        got[flag] = assigned
+    want_swap = {'nterm_mods': 'cterm_mods', 'cterm_mods': 'nterm_mods'}
+    ok = bool(got[True]) and all(m_ == want_swap for m_ in got[True].values()) and \
+        all(m_ in ({}, {'nterm_mods': 'nterm_mods', 'cterm_mods': 'cterm_mods'}) for m_ in got[False].values())
     ob(rep, 'FLD', rev.fq, 'terminal modifications swap only under swap_terms', ok,
-       'swap under the flag, stay otherwise', 'the terminal modifications are not exchanged exactly under swap_terms',
-       rev.loc(swap) if swap is not None else rev.loc(), clause)
+       'swap under the flag, stay otherwise', f'the terminal modifications are not exchanged exactly under swap_terms: '
+       f'with the flag {got[True]}, without it {got[False]}', rev.loc(), clause)
 
 
 def effects(ctx, rep, clause):
